@@ -957,12 +957,24 @@ def settings(ctx):
                 "products, two letter prefixes in one product 10%, two spellings of one key 35%, an accepted but not "
                 "conventional name 8%), requests with relational expressions and || alternatives over them, bracketed "
                 "expressions, -t/-T latest, both look-up modes; directed databases with ties inside one stack and "
-                "across two; a written-through cache whose listing is not sorted")
+                "across two; a written-through cache whose listing is not sorted; family ext (harness/c03ext.py): the same "
+                "two-stack databases with, per stack, chain files of the user tags mine and ut2 in the user's tag directory "
+                "(EUPS_USERDATA/_caches_/stack, 5% dangling), up to three tag files (two by absolute name, 25% one called "
+                "stable in the working directory, shadowing the tag) of 1-4 lines (product version with bars, blanks and "
+                "trailing words, comments, empty lines, 4% lines of one field, versions declared or not), one existing "
+                "directory; options: -t / -T words drawn from registered tags, user tags, file names and file:names, "
+                "--keep/--exact/--inexact, -r 12%, 30% an explicit --vro of 1-6 words out of version version! versionExpr "
+                "current stable beta mine ut2 latest warn warn:2 warn:0 type:exact commandLine path keep bogus t, a file "
+                "name, file:name of an existing and of a missing file; requests as before plus 12% LOCAL:dir (existing or "
+                "not; walk only); both look-up modes; 46 directed requests over three directed worlds")
     ctx.trusted_base = common.COMMON_TRUSTED + [
         "harness/c03.py extract_hooks/extract_taggroups: python ast -> coq/Generated/Config.v, fail-closed (any "
         "non-literal or repeated assignment to the watched config.Eups attributes aborts the check)",
         "modelled, not verified: python list.sort with a consistent comparator (last of the greatest elements), "
         "dict/list membership on strings, the directory listing order of version files (immaterial under a total order)",
+        "family ext: os.path.isfile / os.path.exists enter the model as the lists w_files / w_dirs of the case; the "
+        "lines of a tag file are given to the model as the harness wrote them; the word BASE of a case is replaced by "
+        "the scratch directory on the implementation side only",
         "hooks.version_cmp / Eups.version_match enter the model as parameters; the first family of cases runs the "
         "extracted model with a dotted-numeric comparator and one-term expressions and keeps its version names inside "
         "that fragment (1.0 1.1 2.0 10.0); the family versions runs it with the comparator and the matcher of C10 "
@@ -974,10 +986,18 @@ def settings(ctx):
         "hooks.version_cmp is a total preorder on the declared names, which the harness tests on the real comparator "
         "per request (it is not on 2 / 10 / 1a); such requests are counted, not compared"]
     ctx.assumptions = [
-        "default configuration: no --vro, no -z dictionaries in hooks.config.Eups.VRO, every -t/-T word is a "
-        "registered, unqualified, non-reserved tag name",
-        "no VRO word names an existing file in the working directory (tag files are not modelled); no setup pseudo-tag, "
-        "no LOCAL: versions, no --ignore-versions",
+        "no -z dictionaries in hooks.config.Eups.VRO; every -t/-T word is an unqualified, non-reserved tag name "
+        "(registered, or a user tag) or names a file; families case and versions: no --vro, registered words only",
+        "families case and versions: no VRO word names an existing file in the working directory, no LOCAL: versions; "
+        "everywhere: no setup pseudo-tag, no --ignore-versions, no --force",
+        "family ext: user tag assignments are where eups writes them (the user's tag directory of the stack; no stack "
+        "holds a chain file named like a user tag - the model follows the database look-up there, which then prefers the "
+        "stack's file); only the running user's tag directory (no tags of other users); tag files hold product version "
+        "lines, comments and empty lines - setupRequired(...) lines, relational expressions and LOCAL: versions inside a "
+        "tag file are outside the model (Err Undefined, counted); no file is called keep or type:x; LOCAL: versions are "
+        "compared for findProductFromVRO only, not for Eups.setup (which builds the product from the directory itself)",
+        "walk_x_is_designation: wf_dbx, total_order_on, no file called keep, a relational request does not begin with "
+        "LOCAL:; resolve_is_designation_user_tags and user_pretag_overrides: worlds of stacks only (plain_world)",
         "walk_is_designation and its corollaries: wf_db (no version name is itself a relational expression, no chain "
         "file named keep) and total_order_on vcmp (the version names declared for the product), which only the "
         "latest and expression entries use",
@@ -1000,7 +1020,7 @@ def run(ctx):
     rng = ctx.rng
     groups = [case_to_group(c) for c in corpus_groups()]
     ncorpus = len(groups)
-    ndb = ctx.size(500, 6000)
+    ndb = ctx.size(440, 6000)
     nreq = ctx.size(20, 30)
     for _ in range(ndb):
         groups.append(gen_group(rng, nreq))
@@ -1018,6 +1038,9 @@ def run(ctx):
         compare_groups(ctx, groups[i:i + step], label="case")
     # the comparator of C10 inside the resolver: generated after (and so without disturbing) the cases above
     run_versions(ctx)
+    # user tags, --vro, LOCAL: versions / -r, tag files (harness/c03ext.py, coq/Model/ResolveExt.v)
+    import c03ext
+    c03ext.run_ext(ctx)
 
 
 def replay(ctx, path):
@@ -1031,6 +1054,9 @@ def replay(ctx, path):
     c = {k: v for k, v in c.items() if k not in ("readCache", "step")}
     if c.get("family") == "versions":
         compare_groups_versions(ctx, [case_to_group_v(c)], label="replay")
+    elif c.get("family") == "ext":
+        import c03ext
+        c03ext.compare_groups(ctx, [c03ext.case_to_group(c)], label="replay")
     else:
         compare_groups(ctx, [case_to_group(c)], label="replay")
     bad = [f for f in ctx.failures if not ctx._known(f)] or ctx.disagreements
